@@ -18,6 +18,8 @@ TRUSTED_BASE = [
     "no native_decide, no bv_decide, no own axioms, no sorry",
     "the hand-written Lean model of the Rust code (lean/UnicLocale/Model), tied to /repo by the correspondence "
     "streams of this run (differential testing: bounded by the generators, whose distribution is printed here)",
+    "source tie (where the evidence lists one): the translator srclean (syn-based, /verif/srclean) and its mapping of library calls "
+    "(README there); each translated function is proved equal to the model definition for all inputs (UL.SrcTie.*_eq)",
     "the specifications in lean/UnicLocale/Spec as the reading of the property statement",
     "translators: cfg-guarded re-export + `ulharness dump-tables` + gen/tables2lean.py (compiled tables), "
     "gen/cldr2lean.py (CLDR JSON; cross-checked on every run by an independent reader written in Lean, "
